@@ -71,10 +71,11 @@ def included_closure(tree, by_ns):
     return seen
 
 
-def project(tree, oid, others=(), partial=()):
+def project(tree, oid, others=(), partial=(), inferred=False):
     """tree: girabs() of the GIR under judgement; others: [(nsname, defs)] of the (transitively)
     included namespaces that are available for cross-namespace resolution; partial: names of
-    available namespaces whose GIR is known to be incomplete (the harness' synthetic GLib/GObject/Gio)."""
+    available namespaces whose GIR is known to be incomplete (the harness' synthetic GLib/GObject/Gio);
+    inferred: the input is known to carry no (setter)/(getter)/(set-property)/(get-property) annotation."""
     nsname, defs = defs_of(tree)
     ns = namespace_of(tree)
     avail = [nsname]
@@ -187,7 +188,8 @@ def project(tree, oid, others=(), partial=()):
             callable_(c, path, False, nsname)
         elif t in CONTAINERS:
             compound(c, path, False, True)
-    return dict(id=oid, ns=nsname, avail=sorted(set(avail)), partial=sorted(set(partial) & set(avail)), defs=defs,
+    return dict(id=oid, ns=nsname, avail=sorted(set(avail)), partial=sorted(set(partial) & set(avail)),
+                inferred=bool(inferred), defs=defs,
                 uses=uses, idx=idx, pairs=pairs)
 
 
@@ -287,6 +289,9 @@ def render(case, S):
 
     symbols, comments, dump, names = [], [], [], {}
     moved_host = [i for i in case['order'] if kind[i] in ('record', 'enum')]
+    for n in nodes:
+        n.setdefault('ren', 0)
+        n.setdefault('host', 0)
     for pos, i in enumerate(case['order']):
         n = nodes[i - 1]
         k = n['kind']
@@ -304,12 +309,21 @@ def render(case, S):
             pname = '...' if va else 'x'
             if k == 'callback':
                 symbols.append(S.callback(cn, ret, params, varargs=va, line=line))
+            elif n['host'] and kind[n['host']] == 'record':      # a method of that record: first parameter = the record
+                h = n['host']
+                cn = 'foo_r%d_f%d' % (h, i)
+                names[i] = 'Foo.%s/method:f%d' % (gi_name(h, 'record'), i)
+                symbols.append(S.function(cn, ret, [(c_name(h, 'record') + ' *', 'self')] + params, varargs=va, line=line))
             else:
-                if n.get('moved') and moved_host:
-                    h = moved_host[0]
+                # (a function whose first parameter is the host record would become a method, not a static copy)
+                hosts = [h for h in moved_host if not (s['role'] == 'param' and s['tk'] == 'node' and s['tgt'] == h)]
+                if n.get('moved') and hosts:
+                    h = hosts[0]
                     cn = 'foo_%s%d_fn%d' % (PREFIX[kind[h]].lower(), h, i)
                     names[i] = 'Foo.%s%d_fn%d' % (PREFIX[kind[h]].lower(), h, i)
                 symbols.append(S.function(cn, ret, params, varargs=va, line=line))
+                if n['ren']:        # (rename-to <method set_p of class ren>): a target in another container
+                    nann = nann + ['(rename-to foo_k%d_set_p)' % n['ren']]
             if nann or pann or rann:
                 comments.append(block(cn, nann, pname, pann, rann, line))
         elif k == 'record':
@@ -346,9 +360,198 @@ def render(case, S):
                         '<property name="p" type="%s" flags="3"/>'
                         '<signal name="sig" return="void"><param type="%s"/><param type="%s"/></signal></class>'
                         % (cn, lc, gtn(n['psite']), cn, gtn(n['ssite'])))
+    line = 10 * (len(case['order']) + 2)
+    for xi, x in enumerate(case.get('extras', [])):
+        line = render_extra(S, xi + 1, x, kind, symbols, comments, dump, line)
     dump_xml = ('<?xml version="1.0"?><dump>%s</dump>' % ''.join(dump)) if dump else None
     return dict(symbols=symbols, comments=comments, dump_xml=dump_xml,
                 names=[names[i + 1] for i in range(len(nodes))])
+
+
+# ---------------------------------------------------------------------- extras: cross-reference features
+# An extra is a leaf declaration appended after the graph nodes (nothing refers to it, the implementation-
+# shaped layer does not predict it; its GIR is judged by Closed like everything else).  Abstract form:
+#   {"kind": K, "v": variant, "tgt": node id or 0 (type slot filled from the graph), "host": record id or 0
+#    (declare the callable as a method of that record: indices then count without the instance parameter)}
+#   arrlen    v in in|out|ret|late            array parameter / return value with a length parameter
+#   fieldarr  v in after|before               record field array whose length is another field
+#   clos      v in heur|ann|call|async|destroyonly|noscope|cbdata    callback + user_data + GDestroyNotify
+#   shadow    v in pair|dangling|chain|self|cross    (rename-to) -> shadows / shadowed-by
+#   klass     v = "<flags>:<methods>:<vfunc>"  GObject class: boolean property `active` (GParamFlags value),
+#             accessor methods out of s(et_active) g(et_active) i(s_active), vfunc `changed` with its invoker
+#             found by name (n), by (virtual) annotation (a) or absent (-)
+#   cont      v = "<container>:<element>:<site>"  GList GSList GPtrArray GArray GHashTable carray x
+#             none|utf8|int|unres|node x param|return|field
+#   exotic    v in ulonglong-ret|longdouble-param|valist-param|longlong-field|varargs|ulonglong-alias
+EXTRA_VARIANTS = {
+    'arrlen': ['in', 'out', 'ret', 'late'],
+    'fieldarr': ['after', 'before'],
+    'clos': ['heur', 'ann', 'call', 'async', 'destroyonly', 'noscope', 'cbdata'],
+    'shadow': ['pair', 'dangling', 'chain', 'self', 'cross'],
+    'klass': ['%d:%s:%s' % (f, m, vf) for f in (1, 2, 3, 11) for m in ('sg', 'sgi', 'gi', 's', 'i', '') for vf in ('n', 'a', '-')],
+    'cont': ['%s:%s:%s' % (c, e, st) for c in ('GList', 'GSList', 'GPtrArray', 'GArray', 'GHashTable', 'carray')
+             for e in ('none', 'utf8', 'int', 'unres', 'node') for st in ('param', 'return', 'field')],
+    'exotic': ['ulonglong-ret', 'longdouble-param', 'valist-param', 'longlong-field', 'varargs', 'ulonglong-alias'],
+}
+
+
+def render_extra(S, n, x, kind, symbols, comments, dump, line):
+    k, v, tgt, host = x['kind'], x['v'], x.get('tgt', 0), x.get('host', 0)
+    hostrec = host and kind.get(host) == 'record'
+    pfx = ('foo_r%d_x%d' % (host, n)) if hostrec else 'foo_x%d' % n
+    selfp = [(c_name(host, 'record') + ' *', 'self')] if hostrec else []
+
+    def doc(ident, node_ann=(), params=(), ret=()):
+        t = ['/**', ' * %s:%s' % (ident, (' ' + ' '.join(node_ann)) if node_ann else '')]
+        for pn, pa in params:
+            t.append(' * @%s: %s%sp' % (pn, ' '.join(pa), ': ' if pa else ''))
+        if ret:
+            t += [' *', ' * Returns: %s: r' % ' '.join(ret)]
+        t.append(' */')
+        comments.append(('\n'.join(t), '/src/foo.c', line))
+
+    def tgt_ctype(default):
+        if tgt and kind.get(tgt) in ('alias', 'callback', 'enum'):
+            return c_name(tgt, kind[tgt])
+        if tgt and kind.get(tgt) in ('record', 'class'):
+            return c_name(tgt, kind[tgt]) + ' *'
+        return default
+
+    if k == 'arrlen':
+        el = tgt_ctype('int')
+        if v == 'in':
+            symbols.append(S.function(pfx + '_arr', 'void', selfp + [('const ' + el + ' *', 'data'), ('gsize', 'n_data')], line=line))
+            doc(pfx + '_arr', params=[('data', ['(array length=n_data)']), ('n_data', [])])
+        elif v == 'late':
+            symbols.append(S.function(pfx + '_arr', 'void', selfp + [('gsize', 'n_data'), ('int', 'flags'), ('const ' + el + ' *', 'data')], line=line))
+            doc(pfx + '_arr', params=[('data', ['(array length=n_data)'])])
+        elif v == 'out':
+            symbols.append(S.function(pfx + '_arr', 'void', selfp + [(el + ' **', 'data'), ('gsize *', 'n_data')], line=line))
+            doc(pfx + '_arr', params=[('data', ['(out)', '(array length=n_data)', '(transfer full)']), ('n_data', ['(out)'])])
+        else:
+            symbols.append(S.function(pfx + '_arr', el + ' *', selfp + [('int', 'flags'), ('gsize *', 'n_data')], line=line))
+            doc(pfx + '_arr', params=[('n_data', ['(out)'])], ret=['(array length=n_data)', '(transfer full)'])
+    elif k == 'fieldarr':
+        cn = 'FooX%d' % n
+        fields = [('guint', 'n_items'), ('int *', 'items')]
+        if v == 'before':
+            fields = [('int', 'pad')] + fields[::-1]
+        symbols.append(S.typedef_struct(cn, '_' + cn, line=line))
+        symbols.append(S.struct_def('_' + cn, fields, line=line + 1))
+        doc(cn, params=[('items', ['(array length=n_items)'])])
+    elif k == 'clos':
+        cb = 'FooX%dCb' % n
+        cbt = cb
+        if tgt and kind.get(tgt) in ('alias', 'callback'):
+            cbt = c_name(tgt, kind[tgt])
+        symbols.append(S.callback(cb, 'void', [('int', 'x'), ('gpointer', 'user_data')], line=line))
+        fn = pfx + '_each'
+        if v == 'heur':
+            symbols.append(S.function(fn, 'void', selfp + [(cbt, 'cb'), ('gpointer', 'user_data'), ('GDestroyNotify', 'notify')], line=line + 1))
+        elif v == 'ann':
+            symbols.append(S.function(fn, 'void', selfp + [('int', 'flags'), ('GDestroyNotify', 'dn'), ('gpointer', 'ctx'), (cbt, 'cb')], line=line + 1))
+            doc(fn, params=[('cb', ['(scope notified)', '(closure ctx)', '(destroy dn)'])])
+        elif v == 'call':
+            symbols.append(S.function(fn, 'void', selfp + [(cbt, 'cb'), ('gpointer', 'user_data')], line=line + 1))
+            doc(fn, params=[('cb', ['(scope call)'])])
+        elif v == 'async':
+            symbols.append(S.function(fn, 'void', selfp + [('int', 'x'), ('GAsyncReadyCallback', 'callback'), ('gpointer', 'user_data')], line=line + 1))
+        elif v == 'destroyonly':
+            symbols.append(S.function(fn, 'void', selfp + [('gpointer', 'data'), ('GDestroyNotify', 'free_func')], line=line + 1))
+        elif v == 'noscope':
+            symbols.append(S.function(fn, 'void', selfp + [(cbt, 'cb')], line=line + 1))
+        else:   # cbdata: the callback's own user_data carries (closure)
+            symbols.append(S.function(fn, 'void', selfp + [(cbt, 'cb'), ('gpointer', 'user_data')], line=line + 1))
+            doc(fn, params=[('cb', ['(scope async)']), ('user_data', ['(closure cb)'])])
+    elif k == 'shadow':
+        a, b, c = pfx + '_a', pfx + '_a_full', pfx + '_a_fuller'
+        symbols.append(S.function(a, 'void', selfp + [('int', 'x')], line=line))
+        symbols.append(S.function(b, 'void', selfp + [('int', 'x'), ('int', 'y')], line=line + 1))
+        if v == 'pair':
+            doc(b, ['(rename-to %s)' % a])
+        elif v == 'dangling':
+            doc(b, ['(rename-to %s_missing)' % a])
+        elif v == 'self':
+            doc(b, ['(rename-to %s)' % b])
+        elif v == 'chain':
+            symbols.append(S.function(c, 'void', selfp + [('int', 'x'), ('int', 'y'), ('int', 'z')], line=line + 2))
+            doc(b, ['(rename-to %s)' % a])
+            doc(c, ['(rename-to %s)' % b])
+        else:   # cross: the renamed function lives in another container than its target
+            o = 'foo_x%d_other' % n if hostrec else None
+            if o:
+                symbols.append(S.function(o, 'void', [('int', 'x'), ('int', 'y'), ('int', 'z')], line=line + 2))
+                doc(o, ['(rename-to %s)' % a])
+            else:
+                doc(b, ['(rename-to %s)' % a])
+    elif k == 'klass':
+        flags, meths, vf = v.split(':')
+        cn, lc = 'FooX%d' % n, 'foo_x%d' % n
+        symbols.append(S.typedef_struct(cn, '_' + cn, line=line))
+        symbols.append(S.typedef_struct(cn + 'Class', '_' + cn + 'Class', line=line))
+        symbols.append(S.struct_def('_' + cn, [('GObject', 'parent_instance')], line=line + 1))
+        cfields = [('GObjectClass', 'parent_class')]
+        if vf != '-':
+            cfields.append(S.member(S.funcptr('void', [(cn + ' *', 'self'), ('int', 'x')]), 'changed'))
+        symbols.append(S.struct_def('_' + cn + 'Class', cfields, line=line + 2))
+        symbols.append(S.function(lc + '_get_type', 'GType', [], line=line + 3))
+        if 's' in meths:
+            symbols.append(S.function(lc + '_set_active', 'void', [(cn + ' *', 'self'), ('gboolean', 'active')], line=line + 4))
+        if 'g' in meths:
+            symbols.append(S.function(lc + '_get_active', 'gboolean', [(cn + ' *', 'self')], line=line + 5))
+        if 'i' in meths:
+            symbols.append(S.function(lc + '_is_active', 'gboolean', [(cn + ' *', 'self')], line=line + 6))
+        if vf == 'n':
+            symbols.append(S.function(lc + '_changed', 'void', [(cn + ' *', 'self'), ('int', 'x')], line=line + 7))
+        elif vf == 'a':
+            symbols.append(S.function(lc + '_emit_changed', 'void', [(cn + ' *', 'self'), ('int', 'x')], line=line + 7))
+            doc(lc + '_emit_changed', ['(virtual changed)'])
+        dump.append('<class name="%s" get-type="%s_get_type" parents="GObject">'
+                    '<property name="active" type="gboolean" flags="%s"/></class>' % (cn, lc, flags))
+    elif k == 'cont':
+        cont, el, site = v.split(':')
+        elc = {'utf8': 'utf8', 'int': 'gint', 'unres': 'BarUnknown'}.get(el)
+        if el == 'node':
+            elc = c_name(tgt, kind[tgt]) if tgt and kind.get(tgt) in ('alias', 'callback', 'record', 'enum', 'class') else 'gint'
+        if cont == 'carray':
+            ct = {'utf8': 'char **', 'unres': 'BarUnknown *'}.get(el, 'int *')
+            if el == 'node' and elc != 'gint':
+                ct = elc + ' *' + (' *' if kind.get(tgt) in ('record', 'class') else '')
+            ann = ['(array zero-terminated=1)']
+        else:
+            ct = cont + ' *'
+            ann = []
+            if elc:
+                ann = ['(element-type %s)' % (elc if cont != 'GHashTable' else 'utf8 ' + elc)]
+        if site == 'param':
+            symbols.append(S.function(pfx + '_take', 'void', selfp + [(ct, 'items')], line=line))
+            doc(pfx + '_take', params=[('items', ann)])
+        elif site == 'return':
+            symbols.append(S.function(pfx + '_list', ct, selfp + [('int', 'x')], line=line))
+            doc(pfx + '_list', ret=ann + ['(transfer container)'])
+        else:
+            cn = 'FooX%d' % n
+            symbols.append(S.typedef_struct(cn, '_' + cn, line=line))
+            symbols.append(S.struct_def('_' + cn, [('int', 'pad'), (ct, 'items')], line=line + 1))
+            doc(cn, params=[('items', ann)])
+    elif k == 'exotic':
+        if v == 'ulonglong-ret':
+            symbols.append(S.function(pfx + '_big', 'unsigned long long', selfp, line=line))
+        elif v == 'longdouble-param':
+            symbols.append(S.function(pfx + '_big', 'void', selfp + [('long double', 'x')], line=line))
+        elif v == 'valist-param':
+            symbols.append(S.function(pfx + '_big', 'void', selfp + [('const char *', 'fmt'), ('va_list', 'args')], line=line))
+        elif v == 'varargs':
+            symbols.append(S.function(pfx + '_big', 'void', selfp + [('const char *', 'fmt')], varargs=True, line=line))
+        elif v == 'longlong-field':
+            cn = 'FooX%d' % n
+            symbols.append(S.typedef_struct(cn, '_' + cn, line=line))
+            symbols.append(S.struct_def('_' + cn, [('int', 'pad'), ('long long', 'big')], line=line + 1))
+        else:
+            symbols.append(S.alias('FooX%dBig' % n, 'unsigned long long', line=line))
+    else:
+        raise ValueError('unknown extra %r' % (x, ))
+    return line + 10
 
 
 def marks_of(tree):
